@@ -1,9 +1,20 @@
-// vnet — in-memory stream sockets under the vsched scheduler (fds 900..999). See DESIGN.md §4.3.
+// vnet — in-memory stream sockets (fds 900..999) reached by link-time interposition of the socket syscalls that asl
+// uses (socket, bind, listen, accept, connect, read, recv, send, write, ioctl(FIONREAD), select, close, shutdown,
+// get/setsockopt, getpeername, getsockname). Blocking is modelled through vsched (see DESIGN.md §3.4, §4.3).
 #pragma once
 #include <stdint.h>
 #include <string>
+#include <vector>
 namespace vnet {
-void reset(int pipe_capacity = 65536);      // call at the start of every execution
-int  open_fds();                             // vnet descriptors currently open (leak check)
+void enable(bool on);                        // when on, every new SOCK_STREAM socket is virtual
+void reset(int pipe_capacity = 1 << 20);     // forget all virtual sockets (call at the start of every execution)
+void set_limits(int read_max, int send_max); // environment deviations: at most this many bytes per read()/send() call (0 = unlimited)
+// A connected virtual socket without a peer thread: its input is `chunks` (chunk k+1 "arrives" when the reader has
+// drained chunk k and polls again) followed by end-of-stream; everything written to it is captured.
+int  scripted(const std::vector<std::string>& chunks);
+const std::string& written(int fd);          // bytes written so far to a scripted socket (valid also after it was closed)
+int  open_fds();                             // virtual descriptors still open
+int  misuse();                               // operations on closed / never opened virtual descriptors so far
 uint64_t state_hash();
+void set_spin_limit(int polls, void (*handler)(const char* what)); // non-consuming polls at end-of-stream tolerated before `handler` is called
 }
